@@ -71,6 +71,18 @@ func (r *VerifSource) Read(p []byte) (int, error) {
 	return n, nil
 }
 
+// VerifProvideNamed is VerifProvide for several files (engine: path name, native: temp file).
+func VerifProvideNamed(name string, content []byte) string {
+	if verifrt.Symbolic() {
+		if VerifFiles == nil {
+			VerifFiles = map[string]*VerifSource{}
+		}
+		VerifFiles[name] = &VerifSource{Content: content}
+		return name
+	}
+	return VerifProvide(content)
+}
+
 // VerifFiles maps a file path to its scripted source; VerifDefault serves every other path.
 var VerifFiles map[string]*VerifSource
 var VerifDefault *VerifSource
